@@ -168,10 +168,11 @@ class MeshTet1(MeshSimplex, Mesh3D):
     def _adaptive_sort_mesh(self, p, t, marked):
         """Make (0, 1) the longest edge in t for marked."""
 
-        # add noise (relative to the size of the coordinates) so that there
-        # are no edges with the same length
+        # add noise (relative to the extent of the cells, measured from one
+        # of their vertices) so that there are no edges with the same length
         rng = np.random.RandomState(1337)
-        p = p.copy() + 1e-10 * np.abs(p).max() * rng.random_sample(p.shape)
+        p = p - p[:, t[0, :1]]
+        p = p + 1e-10 * np.abs(p[:, t]).max() * rng.random_sample(p.shape)
 
         l01 = np.sqrt(np.sum((p[:, t[0, marked]] - p[:, t[1, marked]]) ** 2,
                              axis=0))
